@@ -160,6 +160,14 @@ def _outputs(res: C.Result, deep: bool):
     spec_fail: List[Tuple[str, Any, str, Any]] = []
     for k in range(n):
         tree, target = H.base_tree(rng)
+        # names at and around the column widths the back ends pad to (a value glued to an over-long name is lost)
+        used_ids = {d["id"] for f in tree["files"] for d in f["defs"] if d["kind"] == "m"}
+        for j, ln in enumerate((31, 32, 45, 46, 47, 48, 49, 63, 64, 80)):
+            mid = next(i for i in range(7900 + 10 * k + j, 9999) if i not in used_ids)
+            used_ids.add(mid)
+            nm = ("LONG_NAME_%02d_" % ln + "X" * ln)[:ln]
+            tree["files"][tree["root"]]["defs"].append(
+                {"kind": "m", "name": nm, "id": mid, "fields": None if j % 2 else [["v", "int32"]]})
         names = [d["name"] for f in tree["files"] for d in f["defs"] if d["kind"] == "m"]
         try:
             got = H.outputs_check(tree, names)
